@@ -337,6 +337,47 @@ def r1d(ctx: Ctx) -> list[Ob]:
     return out
 
 
+def r1d_sweep(ctx: Ctx) -> list[Ob]:
+    """R1d over the optimiser: every construction of a concrete TorchLayer class in the fuse / shatter
+    apply functions passes ``semiring=`` taken from ``<something>.semiring`` (the compiler's or that
+    of a matched layer).  A layer built without it evaluates in the default sum-product semiring."""
+    out: list[Ob] = []
+    repo = ctx.repo
+    layer = repo.cls("cirkit.backend.torch.layers.base.TorchLayer")
+    for f in repo.iter_functions():
+        if not f.module.name.startswith("cirkit.backend.torch.optimization"):
+            continue
+        ld = None
+        for n in ast.walk(f.node):
+            if not isinstance(n, ast.Call):
+                continue
+            try:
+                tc = repo.get_class(f.module, n.func)
+            except Exception:
+                tc = None
+            if tc is None or not repo.is_subclass(tc, layer):
+                continue
+            ld = ld or LocalDefs(f.node)
+            site = f"{f.module.relpath}:{n.lineno}"
+            inst = f"semiring@{tc.name}#{sum(1 for o in out if o.construct == f.qualname)}"
+            kw = {k.arg: k.value for k in n.keywords if k.arg}
+            v = kw.get("semiring")
+            if v is None:
+                stars = [k.value for k in n.keywords if k.arg is None]
+                from_config = all(isinstance(s, ast.Attribute) and s.attr == "config" for s in stars)
+                if stars and not from_config:
+                    out.append(unres("R1d", f.qualname, inst, "constructed with ** of an unknown mapping", site))
+                else:
+                    out.append(viol("R1d", f.qualname, inst, f"{tc.name}(..) built without semiring= (a layer's config never contains it): the fused layer evaluates in the default sum-product semiring whatever semiring the circuit is compiled in", site))
+                continue
+            srcs = {ch[-1] for e in ld.expand(v) for ch in maximal_chains(e)}
+            if "semiring" in srcs:
+                out.append(ok("R1d", f.qualname, inst, f"semiring={unparse(v)}", site))
+            else:
+                out.append(viol("R1d", f.qualname, inst, f"semiring is {unparse(v)}, not the semiring of the compiler / of a matched layer", site))
+    return out
+
+
 # ----------------------------------------------------------------------------- initialiser rules
 INIT_TARGETS = {
     # symbolic initialiser -> admissible torch in-place initialisers (by last name component)
